@@ -4,12 +4,14 @@ import (
 	"fmt"
 	"go/constant"
 	"go/token"
+	"go/types"
 	"sort"
 	"strings"
 
 	"gedverif/internal/cg"
 	"gedverif/internal/load"
 	"gedverif/internal/oblig"
+	"gedverif/internal/su"
 
 	"golang.org/x/tools/go/ssa"
 )
@@ -56,6 +58,99 @@ func hangObligations(p *load.Prog, r *oblig.Run, rule string, g *cg.Graph, entri
 	}
 	sort.Slice(fns, func(i, j int) bool { return fns[i].String() < fns[j].String() })
 	for _, fn := range fns {
+		// a call of the function to itself that hands on exactly its own parameters repeats the same call for ever (the
+		// stack overflow that ends it cannot be recovered)
+		selfCalls := 0
+		for _, c := range su.Calls(fn) {
+			if _, isGo := c.(*ssa.Go); isGo {
+				continue
+			}
+			cc := c.Common()
+			if cc.StaticCallee() != fn || len(cc.Args) != len(fn.Params) || len(fn.Params) == 0 {
+				continue
+			}
+			selfCalls++
+			same := true
+			for i, a := range cc.Args {
+				if a != ssa.Value(fn.Params[i]) {
+					same = false
+				}
+			}
+			if same {
+				// progress through state: the function changes something reachable from a parameter (a parser that
+				// advances its position, a counter in the engine), or calls something that can, before it recurses
+				reachCall := map[*ssa.BasicBlock]bool{}
+				for _, b := range fn.Blocks {
+					if b == c.Block() || su.ReachableBlocks(b)[c.Block()] {
+						reachCall[b] = true
+					}
+				}
+				rooted := func(v ssa.Value) bool {
+					for d := 0; d < 8; d++ {
+						switch x := v.(type) {
+						case *ssa.Parameter:
+							return true
+						case *ssa.FieldAddr:
+							v = x.X
+						case *ssa.IndexAddr:
+							v = x.X
+						case *ssa.UnOp:
+							v = x.X
+						default:
+							return false
+						}
+					}
+					return false
+				}
+				for b := range reachCall {
+					for _, ins := range b.Instrs {
+						switch x := ins.(type) {
+						case *ssa.Store:
+							if rooted(x.Addr) {
+								same = false
+							}
+						case *ssa.MapUpdate:
+							if rooted(x.Map) {
+								same = false
+							}
+						case ssa.CallInstruction:
+							if ins == c.(ssa.Instruction) {
+								continue
+							}
+							// a call that is handed a pointer parameter (or the receiver) may advance state
+							if _, isBuiltin := x.Common().Value.(*ssa.Builtin); isBuiltin {
+								continue
+							}
+							cal := x.Common().StaticCallee()
+							if cal != nil && !p.IsRepoFunc(cal) {
+								continue // library calls (reflect, fmt) do not change the query state
+							}
+							operands := append([]ssa.Value{}, x.Common().Args...)
+							if x.Common().IsInvoke() {
+								operands = append(operands, x.Common().Value)
+							}
+							for _, a := range operands {
+								if _, isPtr := a.Type().Underlying().(*types.Pointer); isPtr && rooted(a) {
+									same = false
+								}
+							}
+						}
+					}
+				}
+			}
+			o := r.Add(rule, fmt.Sprintf("self-call #%d in %s", selfCalls, load.FuncName(fn)), p.Pos(c.Pos()), "arguments of a recursive call")
+			// recursion that follows the links between people and families: those links can form a cycle in a file (A is
+			// the parent of B in one family and B the parent of A in another), unlike the node tree
+			if link := followsFamilyLink(cc.Args, 0); !same && link != "" {
+				o.Fail(load.FuncName(fn) + " calls itself on the result of " + link + ": links between individuals and families can be cyclic in a file, so the recursion has no bound - it ends in a stack overflow, a fatal error no recover can stop")
+				continue
+			}
+			if same {
+				o.Fail(load.FuncName(fn) + " calls itself with exactly the parameters it was called with: once that call is reached the recursion never ends - the goroutine's stack overflows, which is a fatal error no recover can stop")
+			} else {
+				o.OK("at least one argument differs from the function's own parameter")
+			}
+		}
 		hs := loopHeaders(fn)
 		for hi, h := range hs {
 			key := fmt.Sprintf("loop #%d in %s", hi+1, load.FuncName(fn))
@@ -252,4 +347,71 @@ func hangObligations(p *load.Prog, r *oblig.Run, rule string, g *cg.Graph, entri
 			}
 		}
 	}
+}
+
+// followsFamilyLink: one of the values derives (through element loads, extracts, phis and further calls) from a
+// relationship accessor of the library; returns its name.
+func followsFamilyLink(vs []ssa.Value, depth int) string {
+	links := map[string]bool{"Children": true, "Parents": true, "Spouses": true, "Families": true, "Individual": true, "Father": true, "Mother": true,
+		"Husband": true, "Wife": true, "SpouseChildren": true, "Siblings": true, "Family": true}
+	seen := map[ssa.Value]bool{}
+	var walk func(v ssa.Value, d int) string
+	walk = func(v ssa.Value, d int) string {
+		if d > 10 || seen[v] {
+			return ""
+		}
+		seen[v] = true
+		switch x := v.(type) {
+		case *ssa.Call:
+			cal := x.Call.StaticCallee()
+			name := ""
+			if cal != nil {
+				name = cal.Name()
+				if cal.Pkg == nil || !load.IsRepoPkgPath(cal.Pkg.Pkg.Path()) {
+					return ""
+				}
+			} else if x.Call.IsInvoke() {
+				name = x.Call.Method.Name()
+			}
+			if links[name] {
+				return name + "()"
+			}
+			for _, a := range x.Call.Args {
+				if r := walk(a, d+1); r != "" {
+					return r
+				}
+			}
+		case *ssa.UnOp:
+			return walk(x.X, d+1)
+		case *ssa.IndexAddr:
+			return walk(x.X, d+1)
+		case *ssa.Index:
+			return walk(x.X, d+1)
+		case *ssa.Extract:
+			return walk(x.Tuple, d+1)
+		case *ssa.Next:
+			return walk(x.Iter, d+1)
+		case *ssa.Range:
+			return walk(x.X, d+1)
+		case *ssa.Phi:
+			for _, e := range x.Edges {
+				if r := walk(e, d+1); r != "" {
+					return r
+				}
+			}
+		case *ssa.ChangeType:
+			return walk(x.X, d+1)
+		case *ssa.MakeInterface:
+			return walk(x.X, d+1)
+		case *ssa.TypeAssert:
+			return walk(x.X, d+1)
+		}
+		return ""
+	}
+	for _, v := range vs {
+		if r := walk(v, depth); r != "" {
+			return r
+		}
+	}
+	return ""
 }
